@@ -1,6 +1,6 @@
 SPECIFICATION Spec
 CONSTANTS
-  Templates = {"n", "u", "z", "L2", "Lz", "Nz", "Dz1", "Dz2", "Dz3", "N23"}
+  Templates = {"n", "u", "z", "L2", "Lz", "Nz", "Dz1", "Dz2", "Dz3", "Dz4", "Dz5", "N23"}
   MaxArgs = 3
   FirstList = FALSE
 INVARIANT InvLen
